@@ -1,10 +1,11 @@
 #!/bin/bash
-# usage: tools/seeded_import.sh <ID> — import round-2 changes /tmp/wt/<ID>/out2/{1,2} as seeded/<ID>-3, <ID>-4 and confirm them
-id=$1
+# usage: tools/seeded_import.sh <ID> [<dir=out2> [<offset=2>]] — import the changes /tmp/wt/<ID>/<dir>/{1,2} of a later
+# round as seeded/<ID>-<offset+1>, <ID>-<offset+2> and confirm them in their scratch worktree
+id=$1; dir=${2:-out2}; off=${3:-2}
 for n in 1 2; do
-  src=/tmp/wt/$id/out2/$n; dest=/verif/seeded/$id-$((n+2))
-  [ -f "$src/patch.diff" ] || { echo "=== $id-$((n+2)): missing $src/patch.diff"; continue; }
+  src=/tmp/wt/$id/$dir/$n; dest=/verif/seeded/$id-$((n+off))
+  [ -f "$src/patch.diff" ] || { echo "=== $id-$((n+off)): missing $src/patch.diff"; continue; }
   mkdir -p "$dest"; cp -r "$src/." "$dest/"
-  echo "=== $id-$((n+2))"
-  /verif/tools/seeded_confirm.sh /tmp/wt/$id out2/$n
+  echo "=== $id-$((n+off))"
+  /verif/tools/seeded_confirm.sh /tmp/wt/$id $dir/$n
 done
